@@ -649,4 +649,208 @@ theorem T_directiveDefs : ∀ (ds : List DirectiveDef) (w : W) (ts : List Tok), 
     · simpa [hk, List.filter_cons, List.append_assoc] using h2
     · simpa [hk, List.filter_cons] using h2
 
+/-! ### schema definitions and extensions -/
+
+/-- `FormatOperationTypeDefinition` -/
+theorem T_opType {w : W} {ts : List Tok} (o : OpTypeDef) (h : LexTo w.text ts false) (ho : opTypeOk o = true) :
+    LexTo (formatOperationTypeDefinition cfg o w).text (ts ++ printOpType o) false := by
+  have hb := blankIndent_of_allBlank hind
+  simp only [opTypeOk, Bool.and_eq_true] at ho
+  have h1 := P_nameColon hb o.op (I.free (g := false) h) ho.1
+  have h2 := P_word hb (cfg := cfg) (g := false) (I.free h1) (tokText_name o.type ho.2).lexTo (StartOK_false _)
+    (trimSpace_name _ ho.2)
+  have h3 := P_newline (g := false) (I.mk h2 (by simp [tightOf]))
+  simpa [formatOperationTypeDefinition, printOpType, List.append_assoc] using h3
+
+theorem T_opTypes : ∀ (os : List OpTypeDef) (w : W) (ts : List Tok), LexTo w.text ts false →
+    os.all opTypeOk = true →
+    LexTo (os.foldl (fun w o => formatOperationTypeDefinition cfg o w) w).text (ts ++ os.flatMap printOpType) false
+  | [], w, ts, h, _ => by simpa using h
+  | o :: os, w, ts, h, ho => by
+    simp only [List.all_cons, Bool.and_eq_true] at ho
+    have h1 := T_opType hind o h ho.1
+    have h2 := T_opTypes os _ _ h1 ho.2
+    simpa [List.append_assoc] using h2
+
+omit hind in
+theorem foldl_dirs_flatMap (ds : List SchemaDef) (w : W) :
+    ds.foldl (fun w d => formatDirectiveList cfg d.dirs w) w = formatDirectiveList cfg (ds.flatMap (·.dirs)) w := by
+  induction ds generalizing w with
+  | nil => simp [formatDirectiveList]
+  | cons d ds ih =>
+    simp only [List.foldl_cons, List.flatMap_cons, ih]
+    simp [formatDirectiveList, List.foldl_append]
+
+omit hind in
+theorem foldl_opTypes_flatMap (ds : List SchemaDef) (w : W) :
+    ds.foldl (fun w d => d.opTypes.foldl (fun w o => formatOperationTypeDefinition cfg o w) w) w
+      = (ds.flatMap (·.opTypes)).foldl (fun w o => formatOperationTypeDefinition cfg o w) w := by
+  induction ds generalizing w with
+  | nil => simp
+  | cons d ds ih => simp only [List.foldl_cons, List.flatMap_cons, ih, List.foldl_append]
+
+omit hind in
+theorem isSchemaDefinitionsEmpty_iff (ds : List SchemaDef) :
+    isSchemaDefinitionsEmpty ds = (ds.flatMap (·.opTypes)).isEmpty := by
+  induction ds with
+  | nil => rfl
+  | cons d ds ih =>
+    simp only [isSchemaDefinitionsEmpty, List.all_cons, List.flatMap_cons] at ih ⊢
+    rw [ih]
+    cases d.opTypes <;> simp
+
+omit hind in
+theorem strRaw_append {a b : Bytes} (ha : strRaw a = true) (hb : strRaw b = true) : strRaw (a ++ b) = true := by
+  obtain ⟨A, hA, rfl⟩ := (Utf8.valid_iff a).1 ha
+  obtain ⟨B, hB, rfl⟩ := (Utf8.valid_iff b).1 hb
+  refine (Utf8.valid_iff _).2 ⟨A ++ B, ?_, utf8Encode_append A B⟩
+  intro c hc
+  simp at hc
+  rcases hc with hc | hc
+  · exact hA c hc
+  · exact hB c hc
+
+omit hind in
+theorem strRaw_flatMap_desc (ds : List SchemaDef) (h : ∀ d ∈ ds, strRaw d.desc = true) :
+    strRaw (ds.flatMap (·.desc)) = true := by
+  induction ds with
+  | nil => decide
+  | cons d ds ih =>
+    simp only [List.flatMap_cons]
+    exact strRaw_append (h d (by simp)) (ih fun x hx => h x (by simp [hx]))
+
+/-- the directives and the `{ … }` block of a merged schema definition / extension -/
+theorem T_schemaBlock {w : W} {ts : List Tok} (ds : List SchemaDef) (h : I false w ts)
+    (hdirs : (ds.flatMap (·.dirs)).all dirOk = true) (hops : (ds.flatMap (·.opTypes)).all opTypeOk = true) :
+    LexTo (writeStr cfg [125] (decIndent ((ds.flatMap (·.opTypes)).foldl
+        (fun w o => formatOperationTypeDefinition cfg o w)
+        (incIndent (writeNewline (writeStr cfg [123] (decIndent
+          (formatDirectiveList cfg (ds.flatMap (·.dirs)) (incIndent w))))))))).text
+      (ts ++ printDirectives ((ds.flatMap (·.dirs)).map normDir) ++ tP .braceL ::
+        (ds.flatMap (·.opTypes)).flatMap printOpType ++ [tP .braceR]) false := by
+  have hb := blankIndent_of_allBlank hind
+  have h1 := T_directiveList hb (ds.flatMap (·.dirs)) false (incIndent w) _ (by unfold I at h ⊢; simpa [tightOf] using h)
+    hdirs
+  have h2 := P_str hb (cfg := cfg) (g := false) (w := decIndent _) (by unfold I at h1 ⊢; simpa [tightOf] using h1)
+    tokText_braceL.lexTo (StartOK_false _)
+  have h3 := P_newline (I.free (g := false) h2)
+  have h4 := T_opTypes hind (ds.flatMap (·.opTypes)) (incIndent (writeNewline _)) _ (by simpa using h3) hops
+  have h5 := P_str hb (cfg := cfg) (g := false) (w := decIndent _) (I.free (by simpa using h4))
+    tokText_braceR.lexTo (StartOK_false _)
+  simpa [List.append_assoc] using h5
+
+omit hind in
+theorem all_flatMap {α β : Type} (f : α → List β) (p : β → Bool) (xs : List α)
+    (h : ∀ x ∈ xs, (f x).all p = true) : (xs.flatMap f).all p = true := by
+  rw [List.all_eq_true]
+  intro b hb
+  simp only [List.mem_flatMap] at hb
+  obtain ⟨x, hx, hbx⟩ := hb
+  exact List.all_eq_true.1 (h x hx) b hbx
+
+/-- the one definition all the definitions of the list are merged into -/
+def mergedDef (cfg : Cfg) (ds : List SchemaDef) (p : Pos) : SchemaDef where
+  desc := normDesc cfg (ds.flatMap (·.desc))
+  dirs := (ds.flatMap (·.dirs)).map normDir
+  opTypes := ds.flatMap (·.opTypes)
+  pos := p
+
+omit hind in
+theorem mergeSchemaDefs_of_ne (cfg : Cfg) (ds : List SchemaDef) (h : ds ≠ []) :
+    ∃ p, mergeSchemaDefs cfg ds = [mergedDef cfg ds p] := by
+  cases ds with
+  | nil => exact absurd rfl h
+  | cons d0 rest => exact ⟨d0.pos, rfl⟩
+
+/-- `FormatSchemaDefinitionList` for schema definitions: ONE merged block -/
+theorem T_schemaDefs {w : W} {ts : List Tok} (ds : List SchemaDef) (h : LexTo w.text ts false)
+    (hd : ds.all schemaDefOk = true) :
+    LexTo (formatSchemaDefinitionList cfg false ds w).text
+      (ts ++ ((mergeSchemaDefs cfg ds).map (printSchemaDefD descTok)).flatten) false := by
+  have hb := blankIndent_of_allBlank hind
+  by_cases hds : ds = []
+  · subst hds; simpa [formatSchemaDefinitionList, mergeSchemaDefs] using h
+  · obtain ⟨p, hm⟩ := mergeSchemaDefs_of_ne cfg ds hds
+    have hie : ds.isEmpty = false := by cases ds <;> simp_all
+    have hall : ∀ d ∈ ds, schemaDefOk d = true := List.all_eq_true.1 hd
+    have hdesc := strRaw_flatMap_desc ds (fun d hd' => by
+      have := hall d hd'; simp only [schemaDefOk, Bool.and_eq_true] at this; exact this.1.1)
+    have hdirs := all_flatMap (·.dirs) dirOk ds (fun d hd' => by
+      have := hall d hd'; simp only [schemaDefOk, Bool.and_eq_true] at this; exact this.1.2)
+    have hops := all_flatMap (·.opTypes) opTypeOk ds (fun d hd' => by
+      have := hall d hd'; simp only [schemaDefOk, Bool.and_eq_true] at this; exact this.2)
+    have h1 := T_description hind (ds.flatMap (·.desc)) (I.free (g := false) h) hdesc
+    have h2 := P_word hb (cfg := cfg) h1 (tokText_kw "schema" (by decide)).lexTo (StartOK_false _) (by decide)
+    have h3 := T_schemaBlock hind ds (I.mk (g := false) h2 (by simp [tightOf])) hdirs hops
+    have h4 := P_newline (I.free (g := false) h3)
+    simpa [formatSchemaDefinitionList, hie, hm, mergedDef, printSchemaDefD, foldl_dirs_flatMap, foldl_opTypes_flatMap,
+      List.append_assoc] using h4
+
+/-- `FormatSchemaDefinitionList` for schema extensions: ONE merged `extend schema` -/
+theorem T_schemaExts {w : W} {ts : List Tok} (ds : List SchemaDef) (h : LexTo w.text ts false)
+    (hd : ds.all schemaExtOk = true) :
+    LexTo (formatSchemaDefinitionList cfg true ds w).text
+      (ts ++ ((mergeSchemaDefs cfg ds).map printSchemaExt).flatten) false := by
+  have hb := blankIndent_of_allBlank hind
+  by_cases hds : ds = []
+  · subst hds; simpa [formatSchemaDefinitionList, mergeSchemaDefs] using h
+  · obtain ⟨p, hm⟩ := mergeSchemaDefs_of_ne cfg ds hds
+    have hie : ds.isEmpty = false := by cases ds <;> simp_all
+    have hall : ∀ d ∈ ds, schemaExtOk d = true := List.all_eq_true.1 hd
+    have hdesc0 : ds.flatMap (·.desc) = [] := by
+      rw [List.flatMap_eq_nil_iff]
+      intro d hd'
+      have := hall d hd'; simp only [schemaExtOk, Bool.and_eq_true, List.isEmpty_iff] at this; exact this.1.1
+    have hdirs := all_flatMap (·.dirs) dirOk ds (fun d hd' => by
+      have := hall d hd'; simp only [schemaExtOk, Bool.and_eq_true] at this; exact this.1.2)
+    have hops := all_flatMap (·.opTypes) opTypeOk ds (fun d hd' => by
+      have := hall d hd'; simp only [schemaExtOk, Bool.and_eq_true] at this; exact this.2)
+    have hwd : writeDescription cfg (ds.flatMap (·.desc)) w = w := by
+      rw [hdesc0]; simp [writeDescription]
+    have h1 := P_word hb (cfg := cfg) (I.free (g := false) h) (tokText_kw "extend" (by decide)).lexTo
+      (StartOK_false _) (by decide)
+    have h2 := P_word hb (cfg := cfg) (g := false) (I.mk h1 (by simp [tightOf]))
+      (tokText_kw "schema" (by decide)).lexTo (StartOK_false _) (by decide)
+    by_cases hemp : ds.flatMap (·.opTypes) = []
+    · have h3 := T_directiveList hb (ds.flatMap (·.dirs)) false
+        (incIndent (writeWord cfg (str "schema") (writeWord cfg (str "extend") w))) _
+        (I.mk h2 (by simp [tightOf])) hdirs
+      have h4 := P_newline (w := decIndent _) (g := false) (by unfold I at h3 ⊢; simpa [tightOf] using h3)
+      have he : isSchemaDefinitionsEmpty ds = true := by
+        rw [isSchemaDefinitionsEmpty_iff, hemp]; rfl
+      simpa [formatSchemaDefinitionList, hie, hwd, he, hm, mergedDef, printSchemaExt, printBlock, hemp,
+        foldl_dirs_flatMap, List.append_assoc] using h4
+    · have h3 := T_schemaBlock hind ds (I.mk (g := false) h2 (by simp [tightOf])) hdirs hops
+      have h4 := P_newline (I.free (g := false) h3)
+      have hne : (ds.flatMap (·.opTypes)).isEmpty = false := by
+        cases hx : ds.flatMap (·.opTypes) with
+        | nil => exact absurd hx hemp
+        | cons _ _ => rfl
+      have he : isSchemaDefinitionsEmpty ds = false := by
+        rw [isSchemaDefinitionsEmpty_iff, hne]
+      simpa [formatSchemaDefinitionList, hie, hwd, he, hm, mergedDef, printSchemaExt, printBlock, hne,
+        foldl_dirs_flatMap, foldl_opTypes_flatMap, List.append_assoc] using h4
+
+/-! ### the document -/
+
+/-- `FormatSchemaDocument` from the initial writer state -/
+theorem T_schemaDocument (d : SchemaDoc) (hd : FormattableSchema d) :
+    LexTo (fmtSchemaDoc cfg d) (printSchemaLongD descTok (normSchemaDoc cfg d)) false := by
+  unfold FormattableSchema schemaDocOk at hd
+  simp only [Bool.and_eq_true] at hd
+  obtain ⟨⟨⟨⟨h1, h2⟩, h3⟩, h4⟩, h5⟩ := hd
+  have h0 : LexTo (({} : W).text) [] false := by simpa [W.text] using LexTo_nil
+  have a1 := T_schemaDefs hind d.schema h0 h1
+  have a2 := T_schemaExts hind d.schemaExt a1 h2
+  have a3 := T_directiveDefs hind d.directives _ _ a2 h3
+  have a4 := T_definitions hind d.definitions _ _ a3 h4
+  have a5 := T_extensions hind d.extensions _ _ a4 h5
+  simpa [fmtSchemaDoc, formatSchemaDocument, printSchemaLongD, normSchemaDoc, List.append_assoc] using a5
+
+/-- the text of a formatted type-system document lexes to the long-form tokens of the document -/
+theorem tokensOf_fmtSchemaDoc (d : SchemaDoc) (hd : FormattableSchema d) :
+    tokensOf (fmtSchemaDoc cfg d) = some (printSchemaLongD descTok (normSchemaDoc cfg d)) := by
+  have h := T_schemaDocument hind d hd [] [] (Follow_nil _) Lexes_nil
+  simpa using tokensOf_of_Lexes h
+
 end Gql.Format
